@@ -234,6 +234,7 @@ impl Runner {
               if !in_grace {
                 let sig = match api { "or_insert" => "entry:or_insert-returns-expired-value".to_string(),
                   "compute" | "try_compute" => "compute:try_compute_val-operates-on-expired-entry".to_string(),
+                  "fetch_with" if why == "tti" || (stale_ok && self.cfg.swr.map_or(false, |g| self.now < b.exp.unwrap_or(0) + g)) => "fetch_with:stale-branch-serves-idle-expired-value".to_string(),
                   a => format!("{a}:returns-expired-value-{why}") };
                 self.fail(&sig, format!("{api}({k}) at t={} returned value {v} whose {why} deadline passed (expires {:?}, last refreshing access {})", self.now, b.exp, b.last_access));
               }
@@ -357,6 +358,12 @@ impl Runner {
           if passive { while self.c.metrics().inserts == ins0 && t0.elapsed() < Duration::from_secs(2) { std::thread::yield_now(); } std::thread::sleep(Duration::from_micros(400)); }
           else { std::thread::sleep(Duration::from_millis(3)); }
         }
+        // the loader thread keeps an `Arc` to the loaded value (inside its LoadFuture) until it exits:
+        // wait until the map's and ours are the only ones (peek has no side effect)
+        if self.env.loads.load(Ordering::SeqCst) > l0 {
+          let t0 = Instant::now();
+          loop { match self.c.peek(&k) { Some(a) if Arc::strong_count(&a) > 2 + self.held.iter().filter(|h| Arc::ptr_eq(h, &a)).count() && t0.elapsed() < Duration::from_secs(2) => std::thread::yield_now(), _ => break } }
+        }
         let loads = self.env.loads.load(Ordering::SeqCst) - l0;
         self.expected_loads = l0 + loads;
         if loads > 1 { self.fail("fetch_with:loader-invoked-more-than-once-for-one-call", format!("fetch_with({k}) ran the loader {loads} times")); }
@@ -453,7 +460,7 @@ impl Runner {
           // the restored cache is a new cache: its contract starts from the snapshot's content
           let old: Vec<u64> = self.sh.latest.keys().copied().collect();
           for k in old { self.end_binding(k, End::Cleared, true, "restore"); }
-          self.sh.stale_timers.clear(); self.sh.pending = vec![VecDeque::new(); self.cfg.shards]; self.sh.adv = vec![0; self.cfg.shards]; self.sh.overflowed = false; self.sh.cap_pass_mismatch = false;
+          self.sh.stale_timers.clear(); self.sh.notified.clear(); self.sh.pending = vec![VecDeque::new(); self.cfg.shards]; self.sh.adv = vec![0; self.cfg.shards]; self.sh.overflowed = false; self.sh.cap_pass_mismatch = false;
           self.sh.restored = true;
           for (k, v, c, ttl) in entries {
             self.sh.vids.insert(v, (k, None));
@@ -543,6 +550,7 @@ impl Runner {
         if !before.get(&k).copied().unwrap_or(false) && !occ_after.get(&k).copied().unwrap_or(false) { if let Some(b) = self.sh.latest.get(&k).cloned() { vanished.push((k, b)); } } }
     }
     for (k, b) in &vanished {
+      let mut stale_why = "";
       let unexpired = self.expired_ref(b).is_none();
       removals.push(Removal { k: *k, vid: b.vid, class: if cap_class.contains(k) { 'C' } else { 'E' }, unexpired, own: false });
       if self.cfg.cap.is_none() && unexpired {
@@ -550,9 +558,10 @@ impl Runner {
         let tick_processed = self.sh.adv[self.shard(*k)].saturating_sub(1);
         let sig = if name == "maint" && b.timer_due == Some(tick_processed) { "maintenance:timer-wheel-advances-per-call-evicts-unexpired".to_string() }
           else if name == "maint" { match self.sh.stale_timers.get(k).and_then(|v| v.iter().find(|x| x.0 == tick_processed)) {
-              Some((_, why)) => format!("maintenance:stale-timer-left-by-{why}-evicts-unexpired-entry"), None => "maintenance:evicts-unexpired-entry-of-unbounded-cache".to_string() } }
+              Some((_, why)) => { stale_why = *why; "maintenance:stale-timer-evicts-unexpired-entry".to_string() } None => "maintenance:evicts-unexpired-entry-of-unbounded-cache".to_string() } }
           else { format!("{name}:unexpired-entry-of-unbounded-cache-disappears") };
-        self.fail(&sig, format!("{op} at t={}: key {k} value {} (deadline {:?}, last access {}) left an unbounded cache", self.now, b.vid, b.exp, b.last_access));
+        self.fail(&sig, format!("{op} at t={}: key {k} value {} (deadline {:?}, last access {}) left an unbounded cache{}", self.now, b.vid, b.exp, b.last_access,
+          if stale_why.is_empty() { String::new() } else { format!(" (a TTL timer of an earlier binding of the key, dropped by {stale_why} without cancelling it, fired)") }));
       }
     }
     // ---- C16
@@ -607,7 +616,7 @@ impl Runner {
       let sig = if res(&|b| b.origin == "restore") { "snapshot:restored-entries-never-admitted-to-policy".to_string() }
         else if res(&|b| b.dropped_event) { "capacity:event-buffer-overflow-untracked-residents".to_string() }
         else if backlog > 0 { "capacity:single-run_maintenance-drain-limit-16".to_string() }
-        else if self.sh.cap_pass_mismatch && cc.map_or(true, |c| c <= cap) { "capacity:understated-current_cost-hides-overage".to_string() }
+        else if self.sh.cap_pass_mismatch || cc.map_or(false, |c| c != resident_cost) { "capacity:corrupted-current_cost-misguides-capacity-pass".to_string() }
         else { format!("capacity:{}-cannot-free-enough-with-empty-backlog", self.cfg.policy) };
       self.fail(&sig, format!("{op}: resident cost {resident_cost} > capacity {cap} after run_maintenance (write-event backlog {backlog}, current_cost {:?})", cc));
     } } }
@@ -654,9 +663,19 @@ impl Runner {
   fn finish(mut self) -> (String, bool) {
     self.lis.gate_closed.store(false, Ordering::SeqCst);
     let fails = std::mem::take(&mut self.fails);
-    for (s, m) in &fails { self.tr.monitor(s, m); }
+    let only = std::env::var("VERIF_PROP").ok();
+    for (s, m) in &fails { if only.as_deref().map_or(true, |p| p == prop_of(s)) { self.tr.monitor(s, &format!("[{}] {m}", prop_of(s))); } }
     (self.tr.finish(), self.spurious)
   }
+}
+
+/// the property a monitor signature is a violation of
+fn prop_of(sig: &str) -> &'static str {
+  if sig.starts_with("listener:") { "C16" }
+  else if sig.starts_with("accounting:") || sig.starts_with("capacity:") { "C13" }
+  else if sig.starts_with("snapshot:") || sig.contains(":yields-") || sig.contains(":omits-") { "C17" }
+  else if sig.contains("expired") || sig.contains("unbounded") || sig.starts_with("fetch_with:") || sig.starts_with("maintenance:") { "C12" }
+  else { "C11" }
 }
 
 /// bincode (fixint, little endian) layout of `CacheSnapshot<u64,u64>`
